@@ -6,6 +6,7 @@ PATCH=$(readlink -f "$1"); PID=$2; TIER=${3:-quick}
 S=/tmp/vmut
 mkdir -p $S
 if [ ! -d $S/repo/.git ] && [ ! -f $S/repo/.git ]; then git -C /repo worktree add --detach $S/repo HEAD >/dev/null 2>&1; fi
+git -C $S/repo reset -q --hard
 git -C $S/repo checkout -q --detach $(git -C /repo rev-parse HEAD)
 git -C $S/repo reset -q --hard
 git -C $S/repo apply "$PATCH"
@@ -17,7 +18,7 @@ rm -f $S/harness/src/*.rs
 # only the blocks the property needs + shared modules
 BLOCKS=$(python3 -c "import sys; sys.path.insert(0,'/verif'); from checkcfg import PROPS; print(' '.join(PROPS['$PID']['blocks']))")
 for f in main prng proto netgen dispgen; do cp /verif/harness/src/$f.rs $S/harness/src/; done
-for b in $BLOCKS sp pt; do cp /verif/harness/src/b_$b.rs $S/harness/src/ 2>/dev/null || true; done
+for b in $BLOCKS sp pt c04; do cp /verif/harness/src/b_$b.rs $S/harness/src/ 2>/dev/null || true; done
 cd /verif
 set +e
 VERIF_HARNESS=$S/harness VERIF_WORK=$S/work VERIF_REPLAYS=$S/replays VERIF_EVID=$S/evidence VERIF_REPO=$S/repo ./check $PID --tier $TIER
